@@ -135,6 +135,11 @@ def run(S, tier, rep):
                         raise Unsupported("accumulation loop of %s iterates over %s: not a known serial or parallel iterator" % (name, it))
         rep.ob("C15.c", "%s:%s" % (mod.split(".")[-1], name), bad is None, bad or ("serial range loop with +=" if accumulates else "serial @njit"),
                key="C15.c|%s|%s|%s" % (mod, name, bad), nontrivial=accumulates)
+    # the thread count must only ever select the kernels' threading: a wrapper that hands `num_threads` to another option of
+    # the base class (e.g. the forcing-reset flag) makes results depend on it
+    from .c10 import wrappers_forward_options
+    wrappers_forward_options(S, rep, rule="C15.w")
+    rep.require_min("C15.w", 2)
     rep.require_min("C15.a", 63)
     rep.require_min("C15.b", 500)
     rep.require_min("C15.c", 19)
